@@ -11,6 +11,7 @@ NAME_SCHEMES = [
     lambda i: ['q1', 'q10', 'q2', 'Q', 'q', 'q0', 'q_accept1', 'q_initial1'][i],
     lambda i: ['0', '1', '10', '11', '01', '00', '100', '2'][i],
 ]
+ODD_NAMES = lambda i: ['', 'q', ' ', '{}', '{q,p}', '(a,b)', 'None', '0'][i]      # legal str names that no parser produces
 ALPHABETS = [['a', 'b'], ['a', 'b'], ['a'], ['0', '1'], ['a', 'b', 'c'], ['x', 'y'], []]
 
 
@@ -340,3 +341,22 @@ def ambiguous_cfg2(rng):
     if rng.random() < 0.5:
         R.append([names[0], len(R), [['v', names[-1]], ['v', names[0]]]])
     return {'V': ['S'] + names, 'Sigma': Sigma[:len(names)], 'R': R, 'S': 'S'}
+
+
+def unit_chain_cfg(rng):
+    """a chain of unit rules S -> A -> B -> C ... with terminal rules at the end, the rules listed in random order"""
+    n = rng.randint(3, 5)
+    V = ['S'] + list('ABCDE')[:n - 1]
+    R = []
+    for i in range(n - 1):
+        R.append([V[i], 0, [['v', V[i + 1]]]])
+        if rng.random() < 0.4:
+            R.append([V[i], 0, [['t', rng.choice('ab')]]])
+    R.append([V[-1], 0, [['t', 'c']]])
+    R.append([V[-1], 0, [['t', 'a'], ['v', V[-1]]]])
+    if rng.random() < 0.3:
+        R.append([V[-1], 0, [['v', V[0]]]])      # unit cycle
+    rng.shuffle(R)
+    for i, r in enumerate(R):
+        r[1] = i
+    return {'V': V, 'Sigma': sorted({n for _, _, rhs in R for k, n in rhs if k == 't'}), 'R': R, 'S': 'S'}
